@@ -602,6 +602,11 @@ func runC14(w *World, r *Report) {
 			scanned[fn] = true
 			scan(fn)
 		}
+		// named functions used as values (constructor adapters referenced from a target table)
+		if fn.Pkg == w.Cmd && fn.Parent() == nil && !scanned[fn] && w.addressTaken(fn) {
+			scanned[fn] = true
+			scan(fn)
+		}
 	}
 	r.RuleCounts[ruleDrv] += 0
 	if ctorSeen < len(generators) {
